@@ -67,8 +67,23 @@ def _scan(prefix, ns, out, depth):
             continue
         key = f"{prefix}.{name}"
         try:
+            # (added for C18e, additive) DEFAULT ARGUMENT VALUES of the module's functions are evaluated once: a mutable
+            # default that a function updates in place (`def f(kw, options={...}): options.update(kw)`) is process-wide state
+            fn = getattr(obj, "py_func", obj)
+            if isinstance(fn, types.FunctionType) and getattr(fn, "__module__", None) == prefix.split(":")[0]:
+                for i, dv in enumerate(fn.__defaults__ or ()):
+                    if _is_container(dv):
+                        out[f"{key}:default[{i}]"] = _digest(dv)
+                for dk, dv in (fn.__kwdefaults__ or {}).items():
+                    if _is_container(dv):
+                        out[f"{key}:kwdefault[{dk}]"] = _digest(dv)
             if _is_container(obj):
                 out[key] = _digest(obj)
+            elif obj is None or isinstance(obj, (tuple, frozenset, bool, int, float, complex, str, bytes)):
+                # (added for C15d, additive) a module-level NAME rebound between calls -- `_LAST = None` becoming a tuple,
+                # a counter, a flag -- is state as well, although the value itself is immutable
+                if depth == 0:
+                    out[key + ":value"] = _digest(obj) if isinstance(obj, (tuple, frozenset)) else f"{type(obj).__name__}:{obj!r}"[:80]
             elif callable(obj) and hasattr(obj, "cache_info"):
                 out[key + ":cache"] = str(getattr(obj.cache_info(), "currsize", "?"))
             elif isinstance(obj, type) and depth == 0 and getattr(obj, "__module__", None) == prefix:
